@@ -537,7 +537,15 @@ async fn run_op(ctx: &Ctx, op: AOp, info: &Rc<TaskInfo>) {
         AKind::CreateObject => {
             let r = blocked(info, "Handle::create_object", true, handle.create_object(obj_uuid(op.a))).await;
             match r {
-                Ok(obj) => ctx.res.borrow_mut().objects.push(Some(obj)),
+                Ok(obj) => {
+                    // Any object can serve as a lifetime scope; these ids come from the small UUID
+                    // pool, so a lifetime may be bound to an incarnation that is already gone while
+                    // the same UUID is alive again.
+                    if op.b % 2 == 0 {
+                        ctx.bb.borrow_mut().lifetimes.push(obj.lifetime_id());
+                    }
+                    ctx.res.borrow_mut().objects.push(Some(obj))
+                }
                 Err(e) => ctx.check_err("create_object", &e),
             }
         }
